@@ -52,6 +52,51 @@ def line_sources(get, g, classifier):
     return cargs, srcs, calls
 
 
+REWRITERS = {'sub', 'subn', 'replace', 'split', 'rsplit', 'partition', 'rpartition', 'translate', 'splitlines'}
+
+
+def line_rewrites(model, cls, get, g, classifier):
+    """text-rewriting calls between inspect's frame info and the classifier: in the expressions the classifier argument is computed from, and in a record class that
+    wraps the frame info (a namedtuple subclass with its own __new__/__init__)"""
+    out = []
+    cargs, _srcs, _calls = line_sources(get, g, classifier)
+    gdefs_ = local_defs(get.node)
+
+    def scan(e, depth=5):
+        for x in ast.walk(e):
+            if isinstance(x, ast.Call) and isinstance(x.func, ast.Attribute) and x.func.attr in REWRITERS:
+                out.append((get, x))
+            if isinstance(x, ast.Name) and depth > 0:
+                for d_ in gdefs_.get(x.id, []):
+                    if isinstance(d_, tuple):
+                        d_ = next((y_ for y_ in d_ if isinstance(y_, ast.AST)), None)
+                    if isinstance(d_, ast.AST):
+                        scan(d_, depth - 1)
+    for a_ in cargs:
+        scan(a_)
+    # record classes of the module that are built from the frame info
+    used = {norm(c_.func) for c_ in shallow_calls(get.node) if any(isinstance(a_, ast.Starred) or 'getframeinfo' in norm(a_) for a_ in c_.args)}
+    for k in model.classes.values():
+        if k.module is not get.module or k.name not in used:
+            continue
+        for m in k.methods.values():
+            for x in ast.walk(m.node):
+                if isinstance(x, ast.Call) and isinstance(x.func, ast.Attribute) and x.func.attr in REWRITERS:
+                    out.append((m, x))
+    return out
+
+
+def line_verbatim_rule(run, model, rule, cls, get, g, classifier, consequence):
+    run.rule(rule, 'the text handed to the line classifier is the caller\'s source line as inspect delivered it: nothing rewrites it on the way (no re.sub / replace / split)')
+    rw = line_rewrites(model, cls, get, g, classifier)
+    for f_, x in rw:
+        run.inst(rule, f_, 'the classified line is not rewritten: ' + norm(x)[:60], False,
+                 '%s rewrites the source text before it is classified (%s): python source cannot be edited with a pattern - a `#`, a quote or an operator inside a string literal is '
+                 'taken for syntax, and the part of the line that holds the operator may be cut away; %s' % (f_.qualname, norm(x)[:70], consequence), node=x, obligation=True)
+    if not rw:
+        run.inst(rule, get, 'the classified line reaches the classifier unchanged', True, obligation=True)
+
+
 def check(run, model, tier):
     run.explanation = ('The lock hand-over of ThreadSafeAttribute depends on classifying the caller\'s source line. The '
                        'classifier\'s regex literal is read from the source and decided against the complete universe of '
@@ -191,6 +236,8 @@ def check(run, model, tier):
                                  'interactive prompt), the subscript raises TypeError, and the statement ends with the calling thread still holding the attribute\'s lock - every '
                                  'other thread that touches the attribute blocks for good' % (norm(sb), vtxt)), node=sb, obligation=True)
     run.note('subscripts of the frame info line list in __get__: %d' % n_sub)
+    line_verbatim_rule(run, model, 'PROTO.line-verbatim', cls, get, g, classifier,
+                       'a plain read is then taken for an augmented assignment (lock kept for good) or the other way round')
     # acquire dominates the classification
     run.inst('PROTO.keep-lock-branch', get, 'acquire dominates classification', any(g.dominates(a, ctest) for a in acquires),
              'the lock is not held when the line is classified', node=ctest.ast, obligation=True)
@@ -205,6 +252,24 @@ def check(run, model, tier):
                 d_ = dotted(i_)
                 if d_ and d_.startswith(st_.params[0] + '.'):
                     flag = d_.split('.', 1)[1]
+    if flag:
+        # the flag belongs with the lock it speaks about: one lock per descriptor, so one flag per descriptor
+        run.rule('PROTO.flag-per-descriptor', 'the hand-over flag is plain state of the descriptor whose lock it describes (set through self), not storage shared by all descriptors')
+        shared_store = None
+        for node_ in cls.node.body:
+            if isinstance(node_, ast.FunctionDef) and node_.name == flag:
+                # a property: where does it keep the value?
+                for x_ in ast.walk(node_):
+                    if isinstance(x_, ast.Attribute) and isinstance(x_.value, ast.Name) and node_.args.args and x_.value.id == node_.args.args[0].arg:
+                        bound_in_class = any(isinstance(b_, ast.Assign) and any(isinstance(t_, ast.Name) and t_.id == x_.attr for t_ in b_.targets) for b_ in cls.node.body)
+                        if bound_in_class:
+                            shared_store = x_
+        run.inst('PROTO.flag-per-descriptor', get, 'the flag %s is kept per descriptor' % flag, shared_store is None,
+                 '' if shared_store is None else ('the hand-over flag %s is a property that keeps its value in %s, an object bound once in the class body: all thread-safe attributes of all '
+                                                  'classes share it, while each has a lock of its own. Reading another thread-safe attribute on an ordinary line between the two halves of '
+                                                  '`a.x += ...` (in a helper called on the right-hand side, on a continuation line) sets the shared flag back; x.__set__ then acquires its '
+                                                  'lock a second time and releases it once - the thread keeps x\'s lock' % (flag, norm(shared_store))),
+                 node=shared_store, obligation=True)
     lockattr = None
     for n_ in g.nodes:
         if n_.kind in ('entry', 'exit', 'xexit', 'def'):
